@@ -14,6 +14,7 @@ PROFILE = dict(
     lengths=[6, 10, 14],
     cwds=["root", "root", "sub"],
     real_bash=True,
+    p_instant_start=0.3,
     weights=dict(run=3, dry_run=0.3, start=4, finish=4, purge=0.3, modify_source=0.3, delete_output=0.5, edit_spec=0.3),
     p_job_ok=1.0, p_hashing=0.1, p_no_outputs=0.1,
     force_knobs={"acct_lag": False},
